@@ -30,7 +30,7 @@ def replay(d):
 
 def check(run):
     run.level = "other"
-    run.deductive(PC.MODULES)
+    PC.deductive(run)
     run.assume("worker scheduling: joblib process pools are modelled as order-preserving maps; real interleavings are only sampled (n_jobs 1, 2, 4)")
     rnd = random.Random(run.seed)
     n = 14 if run.tier == "quick" else 120
